@@ -62,6 +62,13 @@ def cases(tier, seed):
                     if entry == "model.pre_transform" and order != 2:
                         continue
                     out.append({"shape": list(shape), "cutoff": cutoff, "order": order, "entry": entry})
+    # input dtypes other than float32 (integer density maps, boolean masks to be softened): the filter acts on the values
+    for dt in ("float64", "int16", "uint8", "int8", "bool"):
+        for entry in ENTRIES:
+            if entry == "model.pre_transform":
+                continue
+            for cutoff in (0.2, 0.5):
+                out.append({"family": "dtype", "dtype": dt, "entry": entry, "cutoff": cutoff, "shape": [5, 6, 4]})
     # call histories: the filter weights are memoised per (shape, cutoff, order); a low-pass must not depend on which
     # filters (low- or high-pass, other cutoffs, other shapes, numpy- or backend-level) were applied before it
     for shape in ((5, 6, 4), (7, 7, 7)) + (((8, 6, 9),) if tier == "thorough" else ()):
@@ -154,9 +161,30 @@ def _history(case):
             "metrics": {"history_sequences": res["sequences"], "history_calls": res["calls"]}}
 
 
+def _dtype(case):
+    dt, entry, cutoff = case["dtype"], case["entry"], case["cutoff"]
+    shape = tuple(case["shape"])
+    rng = np.random.default_rng(21)
+    base = rng.random(shape)
+    img = (base > 0.5) if dt == "bool" else (base * {"float64": 1.0, "int16": 4000, "uint8": 250, "int8": 120}[dt]).astype(dt)
+    f64 = np.asarray(img, dtype=np.float64)
+    g = ref_gain(shape, cutoff, 2)
+    want = np.fft.ifftn(np.fft.fftn(f64) * g).real
+    out, is_ft = _apply(entry, img, cutoff, 2)
+    out = np.asarray(out)
+    got = np.fft.ifftn(out).real if is_ft else out.astype(np.float64)
+    viol = []
+    tol = 5e-6 * max(1.0, np.abs(f64).max())
+    if got.shape != want.shape or np.abs(got - want).max() > tol:
+        viol.append((f"{ID}|{entry}|dtype|{'integer' if 'int' in dt else dt}-input", f"{dt} image of shape {shape}, cutoff {cutoff}: result (dtype {out.dtype}) differs from the Butterworth filter of the same values by {np.abs(got - want).max():.4g} (values up to {np.abs(f64).max():.4g}); mean {got.mean():.5g} vs {f64.mean():.5g}"))
+    return {"nontrivial": True, "outcome": f"dtype|{dt}|{'viol' if viol else 'ok'}", "viol": viol}
+
+
 def run_case(case):
     if case.get("family") == "history":
         return _history(case)
+    if case.get("family") == "dtype":
+        return _dtype(case)
     shape = tuple(case["shape"])
     cutoff, order, entry = case["cutoff"], case["order"], case["entry"]
     n = int(np.prod(shape))
